@@ -37,6 +37,10 @@ pub struct XCfg {
     /// noise family: from answer `at` on, `count` non-progress answers of one kind (0 duplicate, 1 future/gap,
     /// 2 stray packet of the other direction, 3 undecodable), then silence
     pub noise: Option<(usize, u8, usize)>,
+    /// after the noise the conformant answers resume (instead of silence)
+    pub noise_resume: bool,
+    /// the n-th datagram handed to the socket is refused with an error
+    pub send_fail_at: Option<usize>,
 }
 
 impl XCfg {
@@ -44,7 +48,7 @@ impl XCfg {
         json!({"role": if self.role == Role::Sender { "sender" } else { "receiver" }, "blk": self.blk, "ws": self.ws, "len": self.len,
                "handshake": self.handshake, "timeout_s": self.timeout_s, "repeat": self.repeat, "clean": self.clean, "alpha": self.alpha,
                "silence_after": self.silence_after, "error_at": self.error_at, "ack_every_copy": self.ack_every_copy, "snapshot_tail": self.snapshot_tail,
-               "noise": self.noise.map(|(a, k, n)| vec![a as u64, k as u64, n as u64])})
+               "noise": self.noise.map(|(a, k, n)| vec![a as u64, k as u64, n as u64]), "noise_resume": self.noise_resume, "send_fail_at": self.send_fail_at})
     }
     pub fn from_json(v: &Value) -> XCfg {
         XCfg {
@@ -62,6 +66,8 @@ impl XCfg {
             ack_every_copy: v["ack_every_copy"].as_bool().unwrap_or(false),
             snapshot_tail: v["snapshot_tail"].as_bool().unwrap_or(false),
             noise: v["noise"].as_array().map(|a| (a[0].as_u64().unwrap() as usize, a[1].as_u64().unwrap() as u8, a[2].as_u64().unwrap() as usize)),
+            noise_resume: v["noise_resume"].as_bool().unwrap_or(false),
+            send_fail_at: v["send_fail_at"].as_u64().map(|x| x as usize),
         }
     }
     pub fn timeout_ns(&self) -> u64 {
@@ -379,6 +385,7 @@ pub fn run(cfg: &XCfg, prefix: &[u16]) -> Trace {
     let t = Duration::from_secs(cfg.timeout_s);
     let snap = if cfg.role == Role::Receiver { if cfg.snapshot_tail { Snapshot::Tail } else { Snapshot::Full } } else { Snapshot::None };
     let (sock, drv) = sim_pair(t, snap, &path, 1);
+    drv.fail_send_at(cfg.send_fail_at);
     let worker = Worker::new(Box::new(sock), std::path::PathBuf::from(&path), cfg.clean, cfg.blk, t, cfg.ws, cfg.repeat);
     let handle = match cfg.role {
         Role::Sender => worker.send(cfg.handshake),
@@ -420,7 +427,7 @@ pub fn run(cfg: &XCfg, prefix: &[u16]) -> Trace {
                     }
                 }
                 let ans: Answer;
-                if let Some((at, kind, count)) = cfg.noise.filter(|(at, _, _)| answers >= *at) {
+                if let Some((at, kind, count)) = cfg.noise.filter(|(at, _, c)| answers >= *at && !(cfg.noise_resume && answers >= *at + *c)) {
                     if answers < at + count {
                         ans = noise_answer(cfg, kind, &sv, &refr, &content);
                         let a2 = ans.clone();
